@@ -680,6 +680,20 @@ func (f *FuncFacts) context(b *ssa.BasicBlock, rejEdge map[[2]int]bool) []ctxEdg
 				out = append(out, ctxEdge{d, k, la, true})
 				continue
 			}
+			{
+				ps, ok := f.condPaths(iff.Cond, k == 0, false, 0)
+				if ok && len(ps) == 1 {
+					for _, a := range ps[0] {
+						out = append(out, ctxEdge{d, k, a, false})
+					}
+					continue
+				}
+				if ok && len(ps) > 1 && f.isInlinedCall(iff.Cond) {
+					// a disjunctive predicate helper: written in place it is a block with several
+					// entries, which has no single dominating condition
+					continue
+				}
+			}
 			out = append(out, ctxEdge{d, k, f.c.condAtom(iff.Cond, k == 0), false})
 		}
 	}
@@ -937,18 +951,30 @@ func (f *FuncFacts) computeGuards() []*Guard {
 			for _, c := range ctx {
 				atoms = append(atoms, c.atom)
 			}
+			alts := [][]string{nil}
 			if rl := f.c.rotByPre(b); rl != nil && k == 1 {
-				atoms = append(atoms, f.c.cmp2(token.GEQ, rl.phi, rl.bound, 0))
+				alts = [][]string{{f.c.cmp2(token.GEQ, rl.phi, rl.bound, 0)}}
+			} else if ps, ok := f.condPaths(iff.Cond, k == 0, true, 0); ok && len(ps) > 0 {
+				alts = ps
 			} else {
-				atoms = append(atoms, f.c.condAtom(iff.Cond, k == 0))
+				alts = [][]string{{f.c.condAtom(iff.Cond, k == 0)}}
 			}
-			g := &Guard{Fn: funcName(f.fn), Atoms: simplifyAtoms(atoms), Code: rejCode[[2]int{b.Index, k}],
-				Pos: iff.Cond.Pos(), blk: b, rejSucc: k, ctx: ctx}
-			if !g.Pos.IsValid() {
-				g.Pos = f.blockPos(b)
+			seenAlt := map[string]bool{}
+			for _, alt := range alts {
+				as := simplifyAtoms(append(append([]string{}, atoms...), alt...))
+				if key := strings.Join(as, " && "); seenAlt[key] {
+					continue
+				} else {
+					seenAlt[key] = true
+				}
+				g := &Guard{Fn: funcName(f.fn), Atoms: as, Code: rejCode[[2]int{b.Index, k}],
+					Pos: iff.Cond.Pos(), blk: b, rejSucc: k, ctx: ctx}
+				if !g.Pos.IsValid() {
+					g.Pos = f.blockPos(b)
+				}
+				g.Avoid = f.avoidable(g)
+				out = append(out, g)
 			}
-			g.Avoid = f.avoidable(g)
-			out = append(out, g)
 		}
 	}
 	return f.composeGuards(out)
